@@ -337,6 +337,31 @@ def collect(prop, repo):
             rel = os.path.relpath(path, repo)
             ob('%s.per_subscription_state' % name, rel, lambda path=path, name=name: c14_frame(path, name))
 
+    if prop == 'C14':
+        # creation functions: a cold source must be re-subscribable, so nothing mutable may be built outside the closure passed to
+        # Observable::create (an `Arc<Mutex<iterator>>` shared by all subscriptions is consumed by the first one)
+        for path in sorted(glob.glob(os.path.join(repo, 'src', 'observables', '*.rs'))):
+            name = os.path.splitext(os.path.basename(path))[0]
+            if name == 'mod':
+                continue
+            rel = os.path.relpath(path, repo)
+            def cf(path=path, name=name):
+                src = open(path).read()
+                toks = rxprep.strip_test_mods(tree(src))
+                try:
+                    body, _ = rxprep.find_fn(toks, name, None)
+                except rxprep.AnchorLost as e:
+                    return 'undecided', 'creation function `%s` not found: %s' % (name, e)
+                creates = rxprep.find_calls(body.kids, 'create')
+                if not creates:
+                    return None      # built from other creation functions (from_result) or thread-based (interval, timer: C15/C16)
+                first = min(c[2].start for c in creates)
+                outside = re.sub(r'\s+', '', src[body.start:first])
+                m = re.search(r'(RwLock|Mutex|RefCell|Cell|Atomic\w*|Subject|Observer)(::<[^>]*>)?::new\(', outside)
+                if m:
+                    return 'failed', 'creation function `%s` builds shared mutable state (`%s`) outside the closure passed to Observable::create: every subscription of the same Observable value shares it, so a second subscriber does not get what it would have received alone' % (name, m.group(0))
+            ob('src_%s.per_subscription_state' % name, rel, cf)
+
     if prop in ('C01', 'C05', 'C06', 'C17', 'C14', 'C10', 'C13'):
         def a7():
             bad = []
